@@ -302,7 +302,147 @@ def c14_driver(chk, pid, tier, seed, spec, t0):
     return chk.finish(pid, tier, seed, spec, t0, m, notes)
 
 
-CUSTOM = {"C14": c14_driver}
+PROPS["C24"] = P("exploration",
+    "c24probe: compile-time gate assert_send_sync::<Schema|IndexedQuery|IRQuery|Type|FieldValue|Arc<..>>() (a Send/Sync compile error of the "
+    "probe is reported as the violation); runtime: T threads, barrier-aligned, (A) make their very first use of the library concurrently "
+    "(cold OnceLock statics: Schema::parse, Type::parse, frontend::parse, interpret_ir over thread-local NumbersAdapters) and (B) share one "
+    "Arc<Schema> and Arc<IndexedQuery> per case: concurrent compilation against the shared schema, concurrent execution of the shared compiled "
+    "query, clones/drops across threads, queries sent between threads; every compiled query and row sequence must equal the sequential run. "
+    "Builds: plain (several cold process runs), ThreadSanitizer (-Zsanitizer=thread -Zbuild-std, any report fails; a positive-control race "
+    "must be reported first), Miri with different scheduler seeds (thorough). distinct_nontrivial = separate process executions (each one "
+    "cold start and its own schedule) over all builds",
+    quick={"plain_runs": 6, "threads": 8, "iterations": 200, "tsan_runs": 3, "tsan_threads": 8, "tsan_iterations": 60, "miri_seeds": 0},
+    thorough={"plain_runs": 40, "threads": 16, "iterations": 500, "tsan_runs": 24, "tsan_threads": 16, "tsan_iterations": 200, "miri_seeds": 8},
+    floors={"evaluations": 1000, "distinct": 6},
+    technique="sanitizers (ThreadSanitizer, Miri data-race detector) + concurrent differential against the sequential run; compile-time Send/Sync gate",
+    level_note="a finite set of schedules is observed, not every interleaving; the Send/Sync part is a compile-time fact checked by rustc (gate); TSan only sees synchronisation it intercepts (std only here)")
+
+
+def c24_driver(chk, pid, tier, seed, spec, t0):
+    import os, subprocess, time, json, re
+    t = spec[tier]
+    H = chk.HARNESS
+    notes = {}
+    m = {"evaluations": 0, "nontrivial": set(), "counters": {}, "sets": {}, "samples": [], "violations": [], "inconclusive": [], "crashed": [], "binary": None}
+    os.makedirs(os.path.join(chk.REPLAYS, pid), exist_ok=True)
+
+    def sh(cmd, env=None, timeout=1800):
+        e = dict(chk.ENV)
+        if env:
+            e.update(env)
+        try:
+            p = subprocess.run(cmd, cwd=H, env=e, text=True, stdout=subprocess.PIPE, stderr=subprocess.PIPE, timeout=timeout)
+            return p.returncode, p.stdout, p.stderr
+        except subprocess.TimeoutExpired as ex:
+            return None, ex.stdout or "", (ex.stderr or "") + "\n[timeout]"
+
+    def witness(name, text):
+        path = os.path.join(chk.REPLAYS, pid, name)
+        with open(path, "w") as f:
+            f.write(text)
+        return path
+
+    # ---- gate + plain build -------------------------------------------------------------------------
+    rc, so, se = sh(["cargo", "build", "--offline", "--release", "-p", "c24probe"])
+    if rc != 0:
+        if re.search(r"cannot be (sent|shared) between threads safely|the trait `(Send|Sync)` is not implemented|`(Send|Sync)` is not satisfied", se):
+            path = witness("send-sync-gate.txt", se[-8000:])
+            m["violations"].append({"signature": "C24:send-sync-gate", "what": "the Send/Sync assertions of the probe no longer compile", "replay": path})
+            m["evaluations"] = 1
+            return chk.finish(pid, tier, seed, spec, t0, m, {"gate": "failed to compile with a Send/Sync error"})
+        chk.log(se[-3000:])
+        m["inconclusive"].append("c24probe does not build (not a Send/Sync error)")
+        return chk.finish(pid, tier, seed, spec, t0, m, notes)
+    notes["gate"] = "assert_send_sync::<Schema, IndexedQuery, IRQuery, Type, FieldValue, Arc<IndexedQuery>, Arc<Schema>>() compiled"
+    plain = os.path.join(chk.TARGET, "release", "c24probe")
+
+    def account(out, stage, i):
+        try:
+            j = json.loads(out.strip().splitlines()[-1])
+        except Exception:
+            return None
+        m["evaluations"] += j.get("shared_iterations", 0) + j.get("cold_start_threads", 0)
+        m["nontrivial"].add(f"{stage}:{i}")
+        if len(m["samples"]) < 3:
+            m["samples"].append({"stage": stage, "run": i, **j})
+        return j
+
+    for i in range(t["plain_runs"]):
+        rc, so, se = sh([plain, str(t["threads"]), str(t["iterations"])], timeout=600)
+        j = account(so, "plain", i)
+        if rc != 0 or j is None or j.get("mismatches", 1) != 0:
+            path = witness(f"plain-run-{i}.txt", so + "\n" + se[-4000:])
+            m["violations"].append({"signature": "C24:concurrent-result-differs-from-sequential:plain" if j else "C24:probe-crashed:plain",
+                                    "what": f"plain build run {i}: rc={rc} {so.strip()[-300:]}", "replay": path})
+    notes["plain_runs"] = t["plain_runs"]
+
+    # ---- ThreadSanitizer ---------------------------------------------------------------------------
+    tdir = os.path.join(chk.WORK, "target-tsan")
+    rc, so, se = sh(["cargo", "+nightly", "build", "-Zbuild-std", "--target", "x86_64-unknown-linux-gnu", "--offline", "--profile", "tsan", "-p", "c24probe"],
+                    env={"RUSTFLAGS": "-Zsanitizer=thread", "CARGO_TARGET_DIR": tdir}, timeout=2400)
+    tsan = os.path.join(tdir, "x86_64-unknown-linux-gnu", "tsan", "c24probe")
+    if rc != 0 or not os.path.exists(tsan):
+        chk.log(se[-3000:])
+        m["inconclusive"].append("ThreadSanitizer build failed")
+    else:
+        rc, so, se = sh([tsan, "--selftest-race"], env={"TSAN_OPTIONS": "halt_on_error=0"}, timeout=300)
+        control = "ThreadSanitizer: data race" in se
+        notes["tsan_positive_control_reported"] = control
+        if not control:
+            m["inconclusive"].append("ThreadSanitizer did not report the positive-control race")
+        reports = 0
+        for i in range(t["tsan_runs"]):
+            rc, so, se = sh([tsan, str(t["tsan_threads"]), str(t["tsan_iterations"])], env={"TSAN_OPTIONS": "halt_on_error=0 exitcode=66"}, timeout=900)
+            j = account(so, "tsan", i)
+            n = se.count("WARNING: ThreadSanitizer")
+            reports += n
+            if n > 0:
+                first = se[se.find("WARNING: ThreadSanitizer"):][:6000]
+                frames = re.findall(r"#\d+ (\S+) /repo/(\S+?):\d+", first)
+                sig = "C24:tsan:" + (frames[0][1] + ":" + frames[0][0] if frames else first.splitlines()[0][:80])
+                path = witness(f"tsan-run-{i}.txt", se[-20000:])
+                m["violations"].append({"signature": sig, "what": first.splitlines()[0], "replay": path})
+            elif rc != 0 or j is None or j.get("mismatches", 1) != 0:
+                path = witness(f"tsan-run-{i}.txt", so + "\n" + se[-4000:])
+                m["violations"].append({"signature": "C24:concurrent-result-differs-from-sequential:tsan", "what": f"rc={rc} {so.strip()[-300:]}", "replay": path})
+        notes["tsan_runs"] = t["tsan_runs"]
+        notes["tsan_reports"] = reports
+
+    # ---- Miri (thorough) ---------------------------------------------------------------------------
+    if t["miri_seeds"]:
+        mdir = os.path.join(chk.WORK, "target-miri")
+        procs = []
+        for sd in range(t["miri_seeds"]):
+            e = dict(chk.ENV, CARGO_TARGET_DIR=mdir, MIRIFLAGS=f"-Zmiri-seed={seed * 100 + sd}")
+            if sd == 0:
+                # build once, serially
+                subprocess.run(["cargo", "+nightly", "miri", "run", "--offline", "-p", "c24probe", "--", "--selftest-race"], cwd=H, env=e,
+                               stdout=subprocess.PIPE, stderr=subprocess.PIPE, text=True, timeout=1800)
+            procs.append((sd, subprocess.Popen(["cargo", "+nightly", "miri", "run", "--offline", "-p", "c24probe", "--", "3", "1", "2"], cwd=H, env=e,
+                                               stdout=subprocess.PIPE, stderr=subprocess.PIPE, text=True)))
+        ok = 0
+        for sd, p in procs:
+            try:
+                so, se = p.communicate(timeout=1500)
+            except subprocess.TimeoutExpired:
+                p.kill()
+                m["inconclusive"].append(f"miri seed {sd} hit the watchdog")
+                continue
+            j = account(so, "miri", sd)
+            if "Undefined Behavior" in se or "data race" in se.lower():
+                path = witness(f"miri-seed-{sd}.txt", se[-20000:])
+                line = [l for l in se.splitlines() if "Undefined Behavior" in l or "Data race" in l][:1]
+                m["violations"].append({"signature": "C24:miri:" + (line[0][:100] if line else "ub"), "what": (line[0] if line else "miri error"), "replay": path})
+            elif p.returncode != 0 or j is None:
+                m["inconclusive"].append(f"miri seed {sd}: rc={p.returncode} {se[-300:]}")
+            else:
+                ok += 1
+        notes["miri_seeds_clean"] = ok
+    m["counters"] = {"process_runs": len(m["nontrivial"])}
+    return chk.finish(pid, tier, seed, spec, t0, m, notes)
+
+
+CUSTOM = {"C14": c14_driver, "C24": c24_driver}
 
 # reasons for properties that are not claimed (kept current; empty when everything is claimed)
 NOT_CLAIMED = {}
